@@ -46,8 +46,18 @@ VAR_TABLES = ('nodal_data', 'elemental_data')
 # methods of femio's attribute containers that change the container
 MUTATORS = {'update', 'update_data', 'overwrite', 'pop', 'reset', 'set_attribute_data',
             'update_time_series', 'setdefault', 'clear', 'append', 'extend', 'popitem',
-            '__setitem__', '__delitem__', 'sort', 'fill', 'resize', 'itemset', 'put'}
-ARRAY_MUTATORS = {'sort', 'fill', 'resize', 'itemset', 'put'}
+            '__setitem__', '__delitem__', 'sort', 'fill', 'resize', 'itemset', 'put',
+            'partition', 'setfield', 'setdiag', 'eliminate_zeros', 'sum_duplicates', 'sort_indices',
+            'prune', 'setflags'}
+ARRAY_MUTATORS = {'sort', 'fill', 'resize', 'itemset', 'put', 'partition', 'setfield', 'setdiag',
+                  'eliminate_zeros', 'sum_duplicates', 'sort_indices', 'prune', 'setflags'}
+# numpy functions that change their first argument in place
+INPLACE_FUNCS = {'copyto', 'put', 'place', 'putmask', 'fill_diagonal', 'shuffle', 'put_along_axis'}
+# wrappers whose result may share memory with their (first) argument / receiver
+VIEW_FUNCS = {'asarray', 'asanyarray', 'ascontiguousarray', 'atleast_1d', 'atleast_2d', 'squeeze', 'ravel',
+              'reshape', 'transpose', 'csr_matrix', 'csc_matrix', 'coo_matrix'}
+VIEW_METHODS = {'view', 'reshape', 'ravel', 'squeeze', 'transpose', 'tocsr', 'tocoo', 'tocsc'}
+VIEW_ATTRS = {'T', 'data', 'flat', 'real', 'imag', 'indices', 'indptr', 'values', 'loc', 'iloc'}
 KEYED_READERS = {'get_attribute_data', 'get_attribute_ids', 'get_data_length',
                  'get_attribute_id2index', 'get_attribute_time_series', 'get'}
 MESH_CLASSES = ['FEMData', 'GraphProcessorMixin', 'GeometryProcessorMixin',
@@ -73,6 +83,7 @@ class Facts:
         self.name = name
         self.reads = set()      # (table, key|None)
         self.writes = set()
+        self.inplace = set()    # subset of writes: stored arrays / containers changed in place
         self.calls = []         # (callee, bypass: bool, lineno)
         self.clears = set()     # method names
         self.clears_all = False # the "for name in dir(type(self)): ... .cache_clear()" idiom
@@ -98,9 +109,13 @@ def dict_keys(n):
 class Analyzer:
     """analyses one function body; `is_root(expr)` says whether expr denotes the mesh"""
 
-    def __init__(self, fn, universe, root_kind, where):
+    def __init__(self, fn, universe, root_kind, where, siblings=None, mut=None, mut_universe=None):
         self.fn = fn
         self.universe = universe
+        # methods reached as self.<m>(...) / <mesh>.<m>(...) and the parameters they change in place
+        self.siblings = siblings if siblings is not None else (universe if root_kind == 'self' else {})
+        self.mut = mut or {}
+        self.mut_universe = mut_universe if mut_universe is not None else (self.mut if root_kind == 'self' else {})
         self.root_kind = root_kind      # 'self' | 'self.fem_data'
         self.where = where
         self.par = parents_of(fn)
@@ -208,6 +223,14 @@ class Analyzer:
                 ks = self.expand(self.key_of(e.args[0]) if e.args else None)
                 return {('field', t, (k if (t not in ('nodes', 'elements') and key is None) else key))
                         for (_, t, key) in base for k in ks}
+            # wrappers whose result may share memory with the stored array
+            f = e.func
+            if isinstance(f, ast.Attribute) and (f.attr in VIEW_METHODS or (f.attr == 'astype' and _copy_false(e))):
+                return self.denotes(f.value)
+            fname = f.attr if isinstance(f, ast.Attribute) else (f.id if isinstance(f, ast.Name) else '')
+            if e.args and (fname in VIEW_FUNCS or (fname == 'array' and _copy_false(e))) and \
+                    not (isinstance(f, ast.Attribute) and self.denotes(f.value)):
+                return self.denotes(e.args[0])
             return out
         if isinstance(e, ast.IfExp):
             return self.denotes(e.body) | self.denotes(e.orelse)
@@ -234,6 +257,15 @@ class Analyzer:
                         if nm not in self.child_names:
                             self.child_names.add(nm)
                             changed = True
+                    if vals - self.alias.get(nm, set()):
+                        self.alias.setdefault(nm, set()).update(vals)
+                        changed = True
+            # elements of a loop over a field (for k, e in self.elements.items(): ...)
+            for tgt, it in _all_loops(self.fn):
+                for nm, src in _loop_bindings(tgt, it):
+                    vals = {(f_, t_, None if t_ in ('nodes', 'elements') else k_) for (f_, t_, k_) in self.denotes(src)}
+                    if vals:
+                        self.view_aliases.add(nm)
                     if vals - self.alias.get(nm, set()):
                         self.alias.setdefault(nm, set()).update(vals)
                         changed = True
@@ -291,8 +323,46 @@ class Analyzer:
             else:
                 self.err(d, f'unknown decorator {nm}')
 
+    def callee_of(self, call):
+        """(FunctionDef, mutated parameter set) of a call to a sibling / mesh method, else None"""
+        f = call.func
+        if not isinstance(f, ast.Attribute):
+            return None
+        if self.is_root(f.value) and f.attr in self.universe:
+            return self.universe[f.attr], self.mut_universe.get(f.attr, set())
+        if isinstance(f.value, ast.Name) and f.value.id == 'self' and f.attr in self.siblings:
+            return self.siblings[f.attr], self.mut.get(f.attr, set())
+        return None
+
+    def inplace_use(self, n, p):
+        """the value n (which denotes stored data of the mesh) is changed in place here, in a way
+        the plain store / mutator rules do not see: handed to a method that changes that
+        parameter in place, `out=n`, first argument of an in-place numpy function"""
+        if isinstance(p, ast.keyword):
+            call = self.par.get(p)
+            if p.arg == 'out':
+                return True
+            if isinstance(call, ast.Call):
+                c = self.callee_of(call)
+                if c is not None and p.arg in c[1]:
+                    return True
+            return False
+        if isinstance(p, ast.Tuple) and isinstance(self.par.get(p), ast.keyword) and self.par.get(p).arg == 'out':
+            return True
+        if isinstance(p, ast.Call) and n in p.args:
+            f = p.func
+            fname = f.attr if isinstance(f, ast.Attribute) else (f.id if isinstance(f, ast.Name) else '')
+            if fname in INPLACE_FUNCS and p.args[0] is n:
+                return True
+            c = self.callee_of(p)
+            if c is not None:
+                prm = call_param_of(p, n, c[0])
+                if prm is not None and prm in c[1]:
+                    return True
+        return False
+
     def add(self, kind, den):
-        tgt = self.facts.reads if kind == 'r' else self.facts.writes
+        tgt = self.facts.reads if kind == 'r' else (self.facts.writes if kind == 'w' else self.facts.inplace)
         for (_, t, k) in den:
             tgt.add((t, k))
 
@@ -337,11 +407,23 @@ class Analyzer:
                     self.err(n, 'getattr on the mesh object')
                 self.err(n, 'the mesh object escapes (' + type(p).__name__ + ')')
             # --- fields
+            if isinstance(n, ast.Call):
+                den = self.denotes(n)
+                if den and self.inplace_use(n, self.par.get(n)):
+                    self.add('w', den)
+                    self.add('r', den)
+                    self.add('i', den)
+                continue
             if isinstance(n, (ast.Attribute, ast.Subscript, ast.Name)):
                 den = self.denotes(n)
                 if not den:
                     continue
                 p = self.par.get(n)
+                if not (isinstance(n, ast.Name) and isinstance(n.ctx, ast.Store)) and self.inplace_use(n, p):
+                    self.add('w', den)
+                    self.add('r', den)
+                    self.add('i', den)
+                    continue
                 if isinstance(n, ast.Attribute) and isinstance(p, ast.Call) and p.func is n \
                         and self.denotes(n.value):
                     continue            # the method name of a call on a field: see the receiver
@@ -379,8 +461,14 @@ class Analyzer:
 
     def classify(self, n, p, den):
         ctx = getattr(n, 'ctx', None)
+
+        def stored_array(d):
+            # core arrays, or one named variable (not the table as a container)
+            return {x for x in d if x[1] in ('nodes', 'elements') or x[2] is not None}
         if isinstance(ctx, (ast.Store, ast.Del)):
             self.add('w', den)
+            if isinstance(n, ast.Subscript) and isinstance(ctx, ast.Store):
+                self.add('i', stored_array(self.denotes(n.value)))   # x[...] = v on a stored array
             if isinstance(ctx, ast.Del):
                 for (_, t, k) in den:
                     if t == 'elemental_data' and k is not None:
@@ -389,6 +477,7 @@ class Analyzer:
         if isinstance(p, ast.AugAssign) and p.target is n:
             self.add('w', den)
             self.add('r', den)
+            self.add('i', stored_array(den))
             return
         if isinstance(p, ast.Attribute) and p.value is n:
             # n.<something>: attribute store, mutator call, keyed reader, other
@@ -402,6 +491,7 @@ class Analyzer:
                 return
             if isinstance(gp, ast.Subscript) and gp.value is p and isinstance(gp.ctx, (ast.Store, ast.Del)):
                 self.add('w', den)      # n.data[i] = v
+                self.add('i', den)
                 return
             if isinstance(gp, ast.Call) and gp.func is p:
                 meth = p.attr
@@ -409,6 +499,8 @@ class Analyzer:
                         and meth not in ARRAY_MUTATORS:
                     self.add('r', den)  # container method on a computed value: not the field itself
                     return
+                if meth in ARRAY_MUTATORS:
+                    self.add('i', den)
                 if meth in MUTATORS:
                     keys = None
                     if meth in ('update', 'update_time_series') and gp.args:
@@ -611,6 +703,157 @@ class Analyzer:
         self.accesses()
         self.slot_idiom()
         return self.facts
+
+
+# ---- parameters a method changes in place ------------------------------------------------
+def _fn_params(fn):
+    a = fn.args
+    return [x.arg for x in a.posonlyargs + a.args + a.kwonlyargs if x.arg != 'self']
+
+
+def _view_root(e, alias):
+    """the parameter whose storage the value of e may share (through views), else None"""
+    if isinstance(e, ast.Name):
+        return alias.get(e.id)
+    if isinstance(e, ast.Attribute):
+        # an attribute of an object handed in (elements.data, attr.ids, ...) belongs to it
+        return _view_root(e.value, alias)
+    if isinstance(e, ast.Subscript):
+        return _view_root(e.value, alias)
+    if isinstance(e, ast.Starred):
+        return _view_root(e.value, alias)
+    if isinstance(e, ast.IfExp):
+        return _view_root(e.body, alias) or _view_root(e.orelse, alias)
+    if isinstance(e, ast.Call):
+        f = e.func
+        if isinstance(f, ast.Attribute) and (f.attr in VIEW_METHODS or f.attr in KEYED_READERS or
+                                             (f.attr == 'astype' and _copy_false(e))):
+            return _view_root(f.value, alias)
+        fname = f.attr if isinstance(f, ast.Attribute) else (f.id if isinstance(f, ast.Name) else '')
+        if e.args and (fname in VIEW_FUNCS or (fname == 'array' and _copy_false(e))):
+            return _view_root(e.args[0], alias)
+    return None
+
+
+def _loop_bindings(target, it):
+    """(name, expression it is an element of) for the targets of `for target in it`"""
+    out = []
+    if isinstance(it, ast.Call) and isinstance(it.func, ast.Attribute) and it.func.attr in ('items', 'values') \
+            and not it.args:
+        src = it.func.value
+        if it.func.attr == 'items' and isinstance(target, (ast.Tuple, ast.List)) and len(target.elts) == 2:
+            target = target.elts[1]
+        elif it.func.attr == 'items':
+            return out
+        if isinstance(target, ast.Name):
+            out.append((target.id, src))
+        return out
+    if isinstance(it, ast.Call) and isinstance(it.func, ast.Attribute) and it.func.attr == 'keys':
+        return out
+    if isinstance(it, ast.Call) and isinstance(it.func, ast.Name) and it.func.id == 'enumerate' and it.args \
+            and isinstance(target, (ast.Tuple, ast.List)) and len(target.elts) == 2:
+        return _loop_bindings(target.elts[1], it.args[0])
+    if isinstance(it, ast.Call) and isinstance(it.func, ast.Name) and it.func.id == 'zip' \
+            and isinstance(target, (ast.Tuple, ast.List)) and len(target.elts) == len(it.args):
+        for t, a in zip(target.elts, it.args):
+            out += _loop_bindings(t, a)
+        return out
+    if isinstance(target, ast.Name) and not isinstance(it, ast.Call):
+        out.append((target.id, it))
+    return out
+
+
+def _all_loops(fn):
+    for n in ast.walk(fn):
+        if isinstance(n, ast.For):
+            yield n.target, n.iter
+        elif isinstance(n, ast.comprehension):
+            yield n.target, n.iter
+
+
+def call_param_of(call, arg_node, callee_fn):
+    """name of the callee parameter that receives arg_node at this call, else None"""
+    if callee_fn is None:
+        return None
+    a = callee_fn.args
+    pos = [x.arg for x in a.posonlyargs + a.args if x.arg != 'self']
+    for i, x in enumerate(call.args):
+        if x is arg_node:
+            if any(isinstance(y, ast.Starred) for y in call.args[:i + 1]):
+                return None
+            return pos[i] if i < len(pos) else None
+    for kw in call.keywords:
+        if kw.value is arg_node:
+            return kw.arg
+    return None
+
+
+def mutated_params(fns):
+    """for every method: the parameters whose storage it may change in place - subscript /
+    attribute stores, augmented assignments, in-place array and container methods, `out=`,
+    numpy's in-place functions, applied to the parameter or to a view of it (an alias, an
+    attribute such as .data, a slice, asarray / reshape / ..., an element of a loop over it),
+    or the parameter handed on to a sibling method that does so.  A copy (`.copy()`,
+    `np.array(x)`, arithmetic) ends the chain."""
+    info = {}
+    for nm, fn in fns.items():
+        alias = {p: p for p in _fn_params(fn)}
+        changed = True
+        while changed:
+            changed = False
+            for n in ast.walk(fn):
+                if isinstance(n, ast.Assign) and len(n.targets) == 1 and isinstance(n.targets[0], ast.Name):
+                    r = _view_root(n.value, alias)
+                    if r is not None and n.targets[0].id not in alias:
+                        alias[n.targets[0].id] = r
+                        changed = True
+            for tgt, it in _all_loops(fn):
+                for name, src in _loop_bindings(tgt, it):
+                    r = _view_root(src, alias)
+                    if r is not None and name not in alias:
+                        alias[name] = r
+                        changed = True
+        info[nm] = alias
+    mut = {nm: set() for nm in fns}
+    changed = True
+    while changed:
+        changed = False
+        for nm, fn in fns.items():
+            alias = info[nm]
+
+            def hit(e):
+                r = _view_root(e, alias)
+                if r is not None and r not in mut[nm]:
+                    mut[nm].add(r)
+                    return True
+                return False
+            for n in ast.walk(fn):
+                if isinstance(n, (ast.Assign, ast.AnnAssign, ast.Delete)):
+                    tg = n.targets if isinstance(n, (ast.Assign, ast.Delete)) else [n.target]
+                    for t in tg:
+                        for t2 in (t.elts if isinstance(t, (ast.Tuple, ast.List)) else [t]):
+                            if isinstance(t2, (ast.Subscript, ast.Attribute)):
+                                changed |= hit(t2.value)
+                elif isinstance(n, ast.AugAssign):
+                    changed |= hit(n.target if isinstance(n.target, ast.Name) else n.target.value)
+                elif isinstance(n, ast.Call):
+                    f = n.func
+                    if isinstance(f, ast.Attribute) and f.attr in MUTATORS:
+                        changed |= hit(f.value)
+                    fname = f.attr if isinstance(f, ast.Attribute) else (f.id if isinstance(f, ast.Name) else '')
+                    if fname in INPLACE_FUNCS and n.args:
+                        changed |= hit(n.args[0])
+                    for kw in n.keywords:
+                        if kw.arg == 'out':
+                            for x in (kw.value.elts if isinstance(kw.value, ast.Tuple) else [kw.value]):
+                                changed |= hit(x)
+                    if isinstance(f, ast.Attribute) and isinstance(f.value, ast.Name) and f.value.id == 'self' \
+                            and f.attr in fns and f.attr != nm:
+                        for x in list(n.args) + [kw.value for kw in n.keywords]:
+                            prm = call_param_of(n, x, fns[f.attr])
+                            if prm is not None and prm in mut[f.attr]:
+                                changed |= hit(x)
+    return mut
 
 
 _REL_MEMO = {}
@@ -827,13 +1070,14 @@ def closure(facts, fns):
     W = {m: set(facts[m].writes) for m in names}
     C = {m: set(facts[m].clears) for m in names}
     P = {m: set(facts[m].slot_pops) for m in names}
+    I = {m: set(getattr(facts[m], 'inplace', ())) for m in names}
     changed = True
     while changed:
         changed = False
         for m in names:
             for (c, _, call) in facts[m].calls:
                 if c in facts:
-                    for A in (R, W):
+                    for A in (R, W, I):
                         if A is R and c in silent:
                             continue
                         add = subst_params(A[c], fns.get(c), call)
@@ -844,7 +1088,7 @@ def closure(facts, fns):
                         if not A[c] <= A[m]:
                             A[m] |= A[c]
                             changed = True
-    return R, W, C, P
+    return R, W, C, P, I
 
 
 def translate(repo):
@@ -866,6 +1110,7 @@ def translate(repo):
             if nm not in universe:
                 universe[nm] = fn
                 where[nm] = classes[c][1]
+    mut_universe = mutated_params(universe)
     facts = {}
     for nm, fn in universe.items():
         if any((isinstance(d, ast.Name) and d.id in ('classmethod', 'staticmethod')) or
@@ -876,7 +1121,7 @@ def translate(repo):
             if a.facts.lru is not None:
                 raise TranslateError(f'{nm}: memoised class/static method')
             continue
-        facts[nm] = Analyzer(fn, universe, 'self', where[nm]).run()
+        facts[nm] = Analyzer(fn, universe, 'self', where[nm], mut=mut_universe).run()
 
     check_no_inplace_on_cached(
         {nm: fn for nm, fn in universe.items() if nm in facts}, where,
@@ -952,13 +1197,16 @@ def translate(repo):
             if cb and cb != ['FEMWriter'] and cb != ['object']:
                 raise TranslateError(f'{wcls}: unknown base {cb}')
             meths.update(class_methods(cdef))
+            mut_w = mutated_params(meths)
             for mn, fn in meths.items():
                 try:
-                    f = Analyzer(fn, universe, 'self.fem_data', rel).run()
+                    f = Analyzer(fn, universe, 'self.fem_data', rel, siblings=meths, mut=mut_w,
+                                 mut_universe=mut_universe).run()
                 except TranslateError:
                     raise
                 W.reads |= f.reads
                 W.writes |= f.writes
+                W.inplace |= f.inplace
                 W.clears |= f.clears
                 W.slot_pops |= f.slot_pops
                 W.calls += f.calls
@@ -1070,7 +1318,7 @@ def translate(repo):
     allfacts = dict(facts)
     for names, W in writers:
         allfacts['@' + W.name] = W
-    R, Wr, C, P = closure(allfacts, universe)
+    R, Wr, C, P, Inp = closure(allfacts, universe)
     for m in facts:
         if yields_nothing(universe.get(m)):
             R[m] = set()                # no value: nothing to depend on
@@ -1205,6 +1453,12 @@ def translate(repo):
         return sorted((p for p in out if not (p[1] is not None and (p[0], None) in out)),
                       key=lambda p: (p[0], p[1] or ''))
 
+    def with_inplace(m):
+        """a stored array of a variable table changed in place is not a guarded store of a derived
+        variable: whichever variable holds that name - possibly the user's - changes.  It is
+        listed as a write of the whole table (never a by-product: clause FProtected)"""
+        return set(Wr[m]) | {(t, None) for (t, k) in Inp.get(m, ()) if t in VAR_TABLES}
+
     queries = []
     core_helpers = {m for m in reach if any(is_core(p) for p in Wr[m]) and m not in memo
                     and facts[m].ctor is None}
@@ -1223,7 +1477,7 @@ def translate(repo):
             'slot': (f.slot[0], f.slot[2]) if f.slot else None,
             'bypass_arg': f.slot[1] if f.slot else None,
             'relevant': f.slot[3] if f.slot else [a for a in f.args if a != '*'],
-            'reads': pats(R[m]), 'writes': pats(Wr[m]), 'deps': deps,
+            'reads': pats(R[m]), 'writes': pats(with_inplace(m)), 'deps': deps,
             'args': f.args, 'where': f'{where[m]}:{f.lineno}',
             'calls_modifier': sorted({c for (c, _, _) in f.calls if c in modifiers}),
         })
@@ -1261,7 +1515,7 @@ def translate(repo):
         key = '@' + W.name
         for nm in names:
             effects.append({'name': 'write_' + nm, 'writer': True, 'pre': pre_of(key),
-                            'writes': pats(Wr[key], False),
+                            'writes': pats(with_inplace(key), False),
                             'clears': sorted(c for c in C[key] if c in qnames),
                             'clears_slots': sorted(slots[s] for s in P[key] if s in slots),
                             'where': 'FEMData.write'})
@@ -1270,7 +1524,7 @@ def translate(repo):
         dvs.append({'name': m, 'pre': [c for c in pre_of(m) if c != m],
                     'shares': bool(facts[m].ctor['shares']),
                     'tables': sorted(facts[m].ctor['tables']),
-                    'parent_writes': pats(Wr[m]), 'where': f'{where[m]}:{facts[m].lineno}'})
+                    'parent_writes': pats(with_inplace(m)), 'where': f'{where[m]}:{facts[m].lineno}'})
     cfg = {'queries': queries, 'effects': effects, 'derivs': dvs,
            'slots': slots,
            # call graph of every mesh method (used by the harness to attribute a failure seen
